@@ -22,6 +22,7 @@ from fvmon import gen
 from fvmon.observe import content, WF, RC, unbox, wf_kind, rc_kind, spec_of
 
 SPEC = {
+    "anchors": ["fibertree.core.tensor:Tensor.swizzleRanks", "fibertree.core.tensor:Tensor.swapRanks", "fibertree.core.tensor:Tensor.flattenRanks", "fibertree.core.tensor:Tensor.mergeRanks", "fibertree.core.tensor:Tensor.unflattenRanks", "fibertree.core.tensor:Tensor._flattenRankIdsShape", "fibertree.core.tensor:Tensor._unflattenRankIdsShape", "fibertree.core.tensor:Tensor.updateCoords", "fibertree.core.tensor:Tensor.updatePayloads", "fibertree.core.fiber:Fiber.swapRanks", "fibertree.core.fiber:Fiber.mergeRanks", "fibertree.core.fiber:Fiber._mergeRanksHelper", "fibertree.core.fiber:Fiber._flattenCoords", "fibertree.core.fiber:Fiber._mergeToFibertree", "fibertree.core.fiber:Fiber.unflattenRanks", "fibertree.core.fiber:Fiber.updateCoords", "fibertree.core.fiber:Fiber.updatePayloads"],
     "rule": ("case = one tensor / free fiber tree of depth 2-4 (canonical or dirty: explicit default leaves, empty "
              "sub-fibers, all-default sub-trees; the empty tensor; leaf default 0 or 7 where 0 is then a stored value; "
              "authoritative, padded or estimated shape; 30% of the tensors additionally mutated after construction through "
